@@ -763,3 +763,11 @@ MB("m153", "C18", ["R18.1"], "r5set4_3", BATCH, "        self.n_pad = total_size
 MB("m158", "C09", ["R9.1"], "r5set3_1", SOLVER, "        padding_mask = self._padding_masks.get(batch_shape)\n",
    "        padding_mask = self._padding_masks.get(batch_shape[0])\n", "mask cache looked up by the device count only (the table is then state, not a memo)")
 
+# =============================================================================== class-level shared state (R12.9 / R19.5)
+M2("m160", "C12", "R12.9", [
+    (CKPT, "    def _setup_checkpointing(\n", "    _checkpoint_managers: dict = {}\n\n    def _setup_checkpointing(\n", None),
+    (CKPT, "        return checkpoint.CheckpointManager(\n            checkpoint_dir,\n            options=options,\n        )\n",
+     "        if checkpoint_dir not in cls._checkpoint_managers:\n            cls._checkpoint_managers[checkpoint_dir] = checkpoint.CheckpointManager(\n"
+     "                checkpoint_dir,\n                options=options,\n            )\n        return cls._checkpoint_managers[checkpoint_dir]\n", None),
+], "checkpoint managers cached per directory in a class-level dict: max_checkpoints / async of the first solver stick")
+
